@@ -1,4 +1,5 @@
 import functools
+import re
 from collections.abc import Sequence
 from typing import cast
 
@@ -222,8 +223,25 @@ def compare_var(p1: Place, p2: Place) -> int:
     We use this to determine in which order variables are outputted from basic blocks.
     We need to output linear variables at the end, so we do a lexicographic ordering of
     linearity and name.
+
+    Digit runs inside names are compared by value. Names of temporary variables are
+    numbered by a counter that is never reset, so comparing them as plain strings would
+    make the order (and thus the compiled Hugr) depend on how many temporaries have
+    been created earlier in the session (`%tmp9` > `%tmp10`, but `%tmp0` < `%tmp1`).
     """
-    return -1 if (not p1.ty.droppable, str(p1)) < (not p2.ty.droppable, str(p2)) else 1
+    k1 = (not p1.ty.droppable, _name_sort_key(str(p1)), str(p1))
+    k2 = (not p2.ty.droppable, _name_sort_key(str(p2)), str(p2))
+    return -1 if k1 < k2 else 1
+
+
+def _name_sort_key(name: str) -> list[tuple[int, str]]:
+    """Splits a name into digit and non-digit runs, such that digit runs are ordered
+    by their numeric value."""
+    return [
+        (int(run), "") if run.isdigit() else (-1, run)
+        for run in re.split(r"([0-9]+)", name)
+        if run
+    ]
 
 
 def sort_vars(row: Row[Place]) -> list[Place]:
